@@ -522,6 +522,19 @@ func (c *Ctx) annotationKeys() {
 								ann = info.ObjectOf(id)
 							}
 						}
+						// or from an in-repo function that hands out the annotations in a map of its own: it stands for the
+						// object's annotations only if every entry is carried over
+						if g := gf.StaticCallee(info, call); g != nil && g.Pkg() != nil && inRepoPkg(g.Pkg().Path()) && bd == fi.Decl.Body {
+							if _, isMap := info.TypeOf(as.Lhs[0]).Underlying().(*types.Map); isMap {
+								if id, ok := as.Lhs[0].(*ast.Ident); ok {
+									n++
+									if c.Check(c.copiesEveryAnnotation(g), "C19.3-annotation-map-preserved", fname+": "+id.Name+" := "+g.Name()+"(…)", as.Pos(), "a copy into which every entry of GetAnnotations() is stored, unconditionally",
+										g.Name()+" does not carry over every annotation of the object into the map it returns: what it leaves out is lost when the map is written back") {
+										ann = info.ObjectOf(id)
+									}
+								}
+							}
+						}
 					}
 				}
 				return true
@@ -1139,4 +1152,79 @@ func apiObjectType(t types.Type) bool {
 	}
 	pp := n.Obj().Pkg().Path()
 	return strings.HasSuffix(pp, "/apps/v1") || strings.Contains(pp, "applyconfiguration")
+}
+
+// copiesEveryAnnotation: g returns a map it has made itself, after a loop over X.GetAnnotations() (or a variable assigned
+// from it) whose body starts with the store m[key] = value of the iteration's own key and value; m has no other
+// store and no delete in g.
+func (c *Ctx) copiesEveryAnnotation(g *types.Func) bool {
+	fi := c.P.FuncInfoOf(g)
+	if fi == nil {
+		return false
+	}
+	info := fi.Pkg.TypesInfo
+	var out types.Object
+	nRet := 0
+	ownNodes(fi.Decl.Body, func(x ast.Node) {
+		if r, ok := x.(*ast.ReturnStmt); ok {
+			nRet++
+			if len(r.Results) == 1 {
+				if id, ok := ast.Unparen(r.Results[0]).(*ast.Ident); ok && (out == nil || out == info.ObjectOf(id)) {
+					out = info.ObjectOf(id)
+					return
+				}
+			}
+			out = nil
+			nRet = -100
+		}
+	})
+	if out == nil || nRet < 1 {
+		return false
+	}
+	fromGet := func(e ast.Expr) bool {
+		e = ast.Unparen(e)
+		if id, ok := e.(*ast.Ident); ok {
+			if d := defRHS(fi, info, id); d != nil {
+				e = ast.Unparen(d)
+			}
+		}
+		call, ok := e.(*ast.CallExpr)
+		if !ok {
+			return false
+		}
+		sel, ok := call.Fun.(*ast.SelectorExpr)
+		return ok && sel.Sel.Name == "GetAnnotations"
+	}
+	copied, others := false, 0
+	ast.Inspect(fi.Decl.Body, func(x ast.Node) bool {
+		switch y := x.(type) {
+		case *ast.RangeStmt:
+			if fromGet(y.X) && len(y.Body.List) > 0 && y.Key != nil && y.Value != nil {
+				if as, ok := y.Body.List[0].(*ast.AssignStmt); ok && len(as.Lhs) == 1 && len(as.Rhs) == 1 {
+					if ix, ok := as.Lhs[0].(*ast.IndexExpr); ok {
+						if r := rootIdent(ix.X); r != nil && info.ObjectOf(r) == out && types.ExprString(ix.Index) == types.ExprString(y.Key) && types.ExprString(as.Rhs[0]) == types.ExprString(y.Value) {
+							copied = true
+							others--
+						}
+					}
+				}
+			}
+		case *ast.AssignStmt:
+			for _, l := range y.Lhs {
+				if ix, ok := ast.Unparen(l).(*ast.IndexExpr); ok {
+					if r := rootIdent(ix.X); r != nil && info.ObjectOf(r) == out {
+						others++
+					}
+				}
+			}
+		case *ast.CallExpr:
+			if id, ok := y.Fun.(*ast.Ident); ok && id.Name == "delete" && len(y.Args) == 2 {
+				if r := rootIdent(y.Args[0]); r != nil && info.ObjectOf(r) == out {
+					others++
+				}
+			}
+		}
+		return true
+	})
+	return copied && others == 0
 }
